@@ -1041,9 +1041,12 @@ func (s *storage) RemoveBlobs(ctx context.Context, blobs []blob.Ref) error {
 	if err := grp.Err(); err != nil {
 		return err
 	}
-	if len(unpacked) > 0 {
+	if len(blobs) > 0 {
+		// Also the packed ones: a loose copy is still in small when the
+		// pack that moved the blob was interrupted (or failed) between
+		// committing its meta rows and removing the loose blobs.
 		grp.Go(func() error {
-			return s.small.RemoveBlobs(ctx, unpacked)
+			return s.small.RemoveBlobs(ctx, blobs)
 		})
 	}
 	if len(packed) > 0 {
